@@ -300,6 +300,7 @@ func c10Worker(args []string) {
 }
 
 var straceLine = regexp.MustCompile(`^(\d+)\s+([a-z_0-9]+)\((.*)$`)
+var straceResumed = regexp.MustCompile(`^(\d+)\s+<\.\.\. ([a-z_0-9]+) resumed>(.*)$`)
 
 var tzPrefixes = []string{"/usr/share/zoneinfo", "/usr/lib/locale/TZ", "/usr/share/lib/zoneinfo", "/etc/localtime", "/etc/zoneinfo"}
 
@@ -420,6 +421,20 @@ func c10(c *ev.Ctx) {
 		line := sc.Text()
 		m := straceLine.FindStringSubmatch(line)
 		if m == nil {
+			// the second half of a call strace had to split (`<... eventfd2 resumed>) = 6`):
+			// what matters here is the descriptor the runtime got for its own wake-ups
+			if rm := straceResumed.FindStringSubmatch(line); rm != nil {
+				switch rm[2] {
+				case "eventfd", "eventfd2", "epoll_create1", "epoll_create":
+					runtimeFds[retOf(rm[3])] = true
+				case "pipe", "pipe2":
+					if a, b := strings.Index(rm[3], "["), strings.Index(rm[3], "]"); a >= 0 && b > a {
+						for _, f := range strings.Split(rm[3][a+1:b], ",") {
+							runtimeFds[strings.TrimSpace(f)] = true
+						}
+					}
+				}
+			}
 			continue
 		}
 		name, rest := m[2], m[3]
